@@ -7,7 +7,7 @@ All lengths and indexes are in Unicode code points.
 import itertools
 import json
 
-from .. import runner, stdcheck as S
+from .. import runner, sanit, stdcheck as S
 from ..common import jval, jstr, outcome, strict_json, deep_equal
 from ..ref import stdlib_ref as R
 
@@ -126,6 +126,19 @@ YAML_DOCS = [("1", 1.0), ("-1.5", -1.5), ("\"a\"", "a"), ("[1, 2, \"x\"]", [1.0,
              ("{\"a\": 1e3}", {"a": 1000.0}), ("[0.5, -0, 12345678901234567890]", [0.5, 0.0, 12345678901234567890.0])]
 
 
+CAST_JOBS = [
+    "local b = std.encodeUTF8('é漢😀'); [std.decodeUTF8(b), std.length(b), b[0], std.decodeUTF8(b[0:2])]",
+    "std.decodeUTF8([255])", "std.decodeUTF8([0xC3])", "std.decodeUTF8([0xED, 0xA0, 0x80])", "std.decodeUTF8([])",
+    "local s = 'abc'; [std.encodeUTF8(s) == [97, 98, 99], std.decodeUTF8(std.encodeUTF8(s)) == s, s]",
+    "std.base64DecodeBytes('/w==') + std.encodeUTF8('x')", "std.base64(std.base64DecodeBytes('w6k='))", "std.base64Decode('/w==')",
+    "std.md5(std.decodeUTF8(std.encodeUTF8('é'))) + std.sha256('é')",
+    "local b = std.encodeUTF8('aé'); std.reverse(b) + b[1:] + std.map(function(x) x + 1, b)",
+    "std.join('', [std.decodeUTF8(std.encodeUTF8(c)) for c in std.stringChars('a😀b')])",
+    "std.encodeUTF8(std.decodeUTF8([228, 184, 173])) == [228, 184, 173]",
+    "local b = std.base64DecodeBytes('8J+YgA=='); [std.decodeUTF8(b), std.decodeUTF8(b[0:3])]",
+]
+
+
 def classify(fn, args, ref, got):
     """discriminating features of a disagreement (for known-finding signatures)"""
     import re
@@ -198,6 +211,9 @@ def run(tier, seed, t0):
     acc = runner.Acc()
     for a in accs:
         acc.merge(a)
+    # the byte-array <-> string casts of the interner (cached UTF-8 validity, shared storage) under the monitors
+    sanit.run_pass(acc, PROP, tier, seed, extra_items=[sanit.item(c) for c in CAST_JOBS],
+                   quick={"asan": 120, "miri": 16}, thorough={"asan": 2400, "memcheck": 480, "miri": 256})
     return runner.finish(
         PROP, tier, seed, "exploration", acc, t0,
         rule="strings of length 0..12 over {a, b, ',', ' ', é, ß, 漢, 😀, combining mark} plus hand-picked ones (overlapping "
